@@ -160,6 +160,9 @@ type TxnSpec struct {
 	// the properties speak of bodies that RETURN an error). Nothing of such a body may ever
 	// become visible or be emitted.
 	Panic bool
+	// Touch: columns whose typed accessor the body obtains and only READS after its last step
+	// (allocates an update buffer that stays empty). The model ignores it.
+	Touch []int
 }
 
 func (s *Schema) renderStores(stores []Store) string {
@@ -216,6 +219,13 @@ func (s *Schema) renderTxn(t TxnSpec) string {
 		if t.Panic {
 			end = fmt.Sprintf("panic-after-step-%d (recovered by the caller)", t.FailAt)
 		}
+	}
+	if len(t.Touch) > 0 {
+		var names []string
+		for _, ci := range t.Touch {
+			names = append(names, s.Cols[ci].Name)
+		}
+		end = "then only READ through the accessors of " + strings.Join(names, ",") + "; " + end
 	}
 	return "txn[" + strings.Join(parts, "; ") + "] " + end
 }
